@@ -6,7 +6,8 @@ Branch-by-branch models of
 
 * `divideFundsEvenly`                       (deploy/funds.go)
 * `neoFSRuntimeTransactionModifier`         (deploy/deploy.go) — over `UInt32`, because the property is
-                                            about the behaviour at the `uint32` boundary
+                                            about the behaviour at the `uint32` boundary; also ONE modifier
+                                            applied at a sequence of heights (`modifierSeq`)
 * `sharedTransactionData` codec + checksum  (deploy/notary.go) — SHA-256 is a parameter; base64 is
                                             Go's `base64.StdEncoding` (padding, `\r`/`\n` skipped,
                                             trailing bits ignored), modelled on byte strings
@@ -51,6 +52,13 @@ def window (h : UInt32) : UInt32 × UInt32 :=
 /-- the whole modifier: `actor.DefaultCheckerModifier` refuses every VM state but HALT -/
 def modifier (vmState : String) (h : UInt32) : Option (UInt32 × UInt32) :=
   if vmState = "HALT" then some (window h) else none
+
+/-- ONE modifier applied to a sequence of transactions. `syncNeoFSContract` and `updateNNSContract` build
+the modifier once, before their loop, and use it for every update transaction of the stage; the closure
+calls `getBlockchainHeight` on EVERY application, so the i-th transaction gets the window of the height
+that is current at the i-th application — not of the height at which the modifier was built. -/
+def modifierSeq (vmState : String) (heights : List UInt32) : List (Option (UInt32 × UInt32)) :=
+  heights.map (modifier vmState)
 
 /-! ## sharedTransactionData -/
 
